@@ -16,6 +16,7 @@ CONSTANTS
   SPECIAL_A = TRUE
   Sample = 40
   WithDetail <- NoDetail
+  BlameLabel <- AnyBlame
 INVARIANTS NoViol Resolves
 CONSTRAINT Export
 VIEW View
